@@ -51,6 +51,7 @@ def components():
     add('rx1nk', lambda i: [('d%d' % i, DR(b'X', incl=False))])
     # ---- bit runs
     add('b44', lambda i: [('p%d' % i, B(4)), ('q%d' % i, B(4))])
+    add('b44d', lambda i: [('p%d' % i, B(4, default=5)), ('q%d' % i, B(4, default=3))])
     add('b35', lambda i: [('p%d' % i, B(3)), ('q%d' % i, B(5))])
     add('b178', lambda i: [('p%d' % i, B(1)), ('q%d' % i, B(7)), ('r%d' % i, B(8))])
     add('b4c8', lambda i: [('p%d' % i, B(4)), ('q%d' % i, B(12)), ('r%d' % i, B(8))])
